@@ -23,7 +23,11 @@ Section Sound.
       check_state b' o = [] ->
       accepted b' rest -> accepted b ((HOp op0, o) :: rest)
   | acc_reopen : forall b f o rest,
-      reopen_accepts b f o = true -> check_state b o = [] -> accepted b rest -> accepted b ((HReopen f, o) :: rest).
+      reopen_accepts b f o = true -> check_state b o = [] -> accepted b rest -> accepted b ((HReopen f, o) :: rest)
+  | acc_reopen_rm : forall b e p o rest,
+      reopen_during_accepts b (fst (fst (step cf' b (RemovePipeline e p)))) o = true ->
+      check_state (fst (fst (step cf' b (RemovePipeline e p)))) o = [] ->
+      accepted (fst (fst (step cf' b (RemovePipeline e p)))) rest -> accepted b ((HReopenRm e p, o) :: rest).
 
   (* the observation-only oracles, declaratively: refusals are observed to change nothing, no object is closed twice,
      IsAnyPipelineRegistered agrees with the observed pipelines *)
@@ -33,7 +37,7 @@ Section Sound.
       (forall q, p = Some q -> refusal h o = true -> same_state q o = true) ->
       (forall x, In x (ob_closed o) -> ~ In x c) -> NoDup (ob_closed o) ->
       isany_spec o = true ->
-      oracles_ok (Some o) (match h with HOp _ => ob_closed o ++ c | HReopen _ => c end) rest ->
+      oracles_ok (Some o) (match h with HOp _ => ob_closed o ++ c | HReopen _ => c | HReopenRm _ _ => c end) rest ->
       oracles_ok p c ((h, o) :: rest).
 
   Lemma app_nil_both {A} (a c : list A) : a ++ c = [] -> a = [] /\ c = [].
@@ -55,7 +59,7 @@ Section Sound.
     run_case close_fails non_closers false false b prev cl i steps = [] -> accepted b steps /\ oracles_ok prev cl steps.
   Proof.
     induction steps as [|[h o] rest IH]; intros b prev cl i H; [split; constructor|].
-    cbn [run_case] in H. destruct h as [op0|f].
+    cbn [run_case] in H. destruct h as [op0|f|e p].
     - destruct (step cf' b op0) as [[b' r] closed] eqn:Es.
       apply app_nil_both in H as [Hm Hrest]. apply map_nil in Hm. apply app_nil_both in Hm as [Hmm Hor].
       cbn [orb] in Hmm. apply app_nil_both in Hmm as [Ha Hs]. apply app_nil_both in Ha as [Hok Herr].
@@ -94,6 +98,20 @@ Section Sound.
         * intros x Hx Hc. assert (Hex : existsb (fun x0 => memN x0 cl) (ob_closed o) = true)
             by (apply existsb_exists; exists x; split; [exact Hx|apply memN_In; exact Hc]). congruence.
         * apply distinct_fix_NoDup. exact Hd2.
+    - apply app_nil_both in H as [Hm Hrest]. apply map_nil in Hm. apply app_nil_both in Hm as [Hmm Hor].
+      cbn [orb] in Hmm. apply app_nil_both in Hmm as [Ha Hst]. apply ite_nil in Ha.
+      rewrite Ha, Hst in Hrest. cbn [app nonempty orb] in Hrest.
+      destruct (IH _ _ _ _ Hrest) as [Hacc Horc].
+      split.
+      + apply acc_reopen_rm; auto.
+      + apply app_nil_both in Hor as [Hfr Hor2]. apply app_nil_both in Hor2 as [Hdc Hia].
+        apply ite_nil' in Hdc. apply Bool.orb_false_iff in Hdc as [Hd1 Hd2]. apply Bool.negb_false_iff in Hd2.
+        apply ite_nil in Hia.
+        constructor; auto.
+        * intros q -> Hrf. cbn [refusal] in Hrf. discriminate.
+        * intros x Hx Hc. assert (Hex : existsb (fun x0 => memN x0 cl) (ob_closed o) = true)
+            by (apply existsb_exists; exists x; split; [exact Hx|apply memN_In; exact Hc]). congruence.
+        * apply distinct_fix_NoDup. exact Hd2.
   Qed.
 
   (* and conversely: an execution of the model that meets the oracles is never reported *)
@@ -113,10 +131,11 @@ Section Sound.
       assert (H2 : eqNl (distinct (ob_closed o)) (ob_closed o) = true) by (apply eqNl_spec; apply distinct_id; exact Hnd).
       rewrite H1, H2. cbn [orb negb app]. destruct prev as [q|]; [|reflexivity].
       destruct (refusal h o) eqn:Er; [|reflexivity]. rewrite (Hfr q eq_refl eq_refl). reflexivity. }
-    inversion Ha as [|b0' op0 o0 rest0 b' r closed Es Hok Herr Hcl Hst Hacc|b0' f o0 rest0 Hra Hst Hacc]; subst; cbn [run_case].
+    inversion Ha as [|b0' op0 o0 rest0 b' r closed Es Hok Herr Hcl Hst Hacc|b0' f o0 rest0 Hra Hst Hacc|b0' e p o0 rest0 Hra Hst Hacc]; subst; cbn [run_case].
     - rewrite Es. rewrite Hok, Herr, Hcl, Hst, !Bool.eqb_reflx.
       replace (eqNl (ob_closed o) (ob_closed o)) with true by (symmetry; apply eqNl_spec; reflexivity).
       cbn [app orb nonempty]. rewrite Horacle. cbn [map app]. apply IH; assumption.
+    - rewrite Hra, Hst. cbn [app orb nonempty]. rewrite Horacle. cbn [map app]. apply IH; assumption.
     - rewrite Hra, Hst. cbn [app orb nonempty]. rewrite Horacle. cbn [map app]. apply IH; assumption.
   Qed.
 End Sound.
@@ -139,18 +158,21 @@ Print Assumptions mismatches_nil_iff.
 
 (* what the accepted history gives: the model's run over the history's calls *)
 Fixpoint calls_of (steps : list (hop * bobs)) : list op :=
-  match steps with [] => [] | (HOp o, _) :: r => o :: calls_of r | (HReopen _, _) :: r => calls_of r end.
+  match steps with [] => [] | (HOp o, _) :: r => o :: calls_of r | (HReopen _, _) :: r => calls_of r
+  | (HReopenRm e p, _) :: r => RemovePipeline e p :: calls_of r end.
 
 (* the snapshot observed after the last step of an accepted history is the model's state after the same calls *)
 Theorem accepted_final_snapshot : forall cfl nc steps b o h,
   accepted cfl nc b (steps ++ [(h, o)]) -> check_state (fold_left (fun s x => fst (fst (step (cf cfl nc) s x))) (calls_of (steps ++ [(h, o)])) b) o = [].
 Proof.
   intros cfl nc steps. induction steps as [|[h1 o1] rest IH]; intros b o h Ha; cbn [app] in *.
-  - inversion Ha as [|b0' op0 o0 rest0 b' r closed Es Hok Herr Hcl Hst Hacc|b0' f o0 rest0 Hra Hst Hacc]; subst; cbn [calls_of fold_left].
+  - inversion Ha as [|b0' op0 o0 rest0 b' r closed Es Hok Herr Hcl Hst Hacc|b0' f o0 rest0 Hra Hst Hacc|b0' e p o0 rest0 Hra Hst Hacc]; subst; cbn [calls_of fold_left].
     + rewrite Es. exact Hst.
     + exact Hst.
-  - inversion Ha as [|b0' op0 o0 rest0 b' r closed Es Hok Herr Hcl Hst Hacc|b0' f o0 rest0 Hra Hst Hacc]; subst; cbn [calls_of fold_left].
+    + exact Hst.
+  - inversion Ha as [|b0' op0 o0 rest0 b' r closed Es Hok Herr Hcl Hst Hacc|b0' f o0 rest0 Hra Hst Hacc|b0' e p o0 rest0 Hra Hst Hacc]; subst; cbn [calls_of fold_left].
     + rewrite Es. cbn [fst]. apply IH. exact Hacc.
+    + apply IH. exact Hacc.
     + apply IH. exact Hacc.
 Qed.
 Print Assumptions accepted_final_snapshot.
